@@ -62,6 +62,26 @@ def check_C01(tier, seed):
     run_pipeline(res, binary, "vec", vec_path=sel, validate=False)
     n = 20000 if tier == "quick" else 300000
     run_pipeline(res, binary, "random", gen_lines=gens.gen_gmtime(rng, n), nshards=8 if tier == "quick" else 16)
+    if tier == "thorough":
+        # every second of one day through TLC, then the native factorisation lemmas: together with the vectors for every day of the
+        # cycle at 00:00:00 they cover every instant of the supported range (date depends on the day only, time on the second only,
+        # cycles shift the year by 400)
+        import subprocess
+        run_pipeline(res, binary, "all-seconds", gen_lines=({"op": "gmtime", "a": {"t": C.W(946684800 + s), "ns": 0, "via": "utc"}} for s in range(86400)), nshards=16)
+        brel, err = build_harness("rel")
+        if brel is None:
+            raise ToolError("release build failed: " + err)
+        lout = os.path.join(C.OUT, "C01-lemma.ndjson")
+        r = subprocess.run([brel, "lemma", str(C.NCPU), lout], capture_output=True, text=True, timeout=3600)
+        if r.returncode != 0:
+            raise ToolError("native lemma run failed: " + r.stderr[-500:])
+        st = json.loads(r.stdout.strip().splitlines()[-1])
+        res.notes["native_factorisation_lemmas"] = st
+        res.notes["exhaustive"] = True
+        for l in open(lout):
+            e = json.loads(l)
+            res.violation("C01-factorisation-lemma-" + e.get("lemma", "?"), C.strip(e))
+        os.remove(lout)
     res.notes["rule"] = "vectors: every day of the walked years x cycle indices x seconds of day emitted by MC_Calendar; events: seeded instants (uniform, range ends, year/century/cycle boundaries, negative remainders, i64 extremes) through UtcDateTime::from_timespec and DateTime::from_timespec(utc)"
     os.remove(vec); os.remove(sel)
     return res.finish()
@@ -310,6 +330,45 @@ def check_C11(tier, seed):
     run_pipeline(res, binary, "rules", gen_lines=gens.gen_c11(rng, 6000 if q else 100000), nshards=12 if q else 16)
     res.notes["rule"] = "vectors: for each selected ordered pair of day notations, the constructor is called at every decision breakpoint k*86400 + {-1,0,1} of d (several time/offset splits incl. window edges); events: seeded rules (80% with start/end days within 20 days), window-edge offsets and times, invalid rule days"
     res.notes["pairs_selected"] = len(starts) * len(ends)
+    if not q:
+        # every ordered pair of the 1 151 day notations: TLC prints, per pair, the verdict at every decision breakpoint of d
+        # (16 JVMs, each a range of start ids); a native sweep calls the real constructor at each of them through six splits
+        import subprocess
+        table = os.path.join(C.OUT, "C11-allpairs.ndjson")
+        bounds = [(1 + i * 72, min(1151, (i + 1) * 72)) for i in range(16)]
+        class _S:  # collect mc infos of the shards
+            pass
+        infos = []
+        import threading
+        errs = []
+        def one(i, lo, hi):
+            try:
+                infos.append(run_mc("MC_ConsAll", dict(StartLo=lo, StartHi=hi), invariants=("Emit",), workers=1, vec_out=f"{table}.{i}", timeout=7200, tag=f"C11-all-{i}", xmx="3g"))
+            except Exception as e:  # noqa
+                errs.append(e)
+        ths = [threading.Thread(target=one, args=(i, lo, hi)) for i, (lo, hi) in enumerate(bounds)]
+        [t.start() for t in ths]; [t.join() for t in ths]
+        if errs:
+            raise errs[0]
+        for inf in infos:
+            res.add_mc(inf)
+        tot = dict(pairs=0, calls=0, mismatches=0)
+        for i in range(16):
+            part = f"{table}.{i}"
+            mis = part + ".mismatch"
+            r = subprocess.run([binary, "cons", part, mis], capture_output=True, text=True, timeout=3600)
+            if r.returncode != 0:
+                raise ToolError("native constructor sweep failed: " + r.stderr[-500:])
+            st = json.loads(r.stdout.strip().splitlines()[-1])
+            for k in tot:
+                tot[k] += st[k]
+            for l in open(mis):
+                e = json.loads(l)
+                res.violation("vector-mismatch", C.strip(e), dict(expected=e.get("x")))
+            os.remove(part); os.remove(mis)
+        res.vectors += tot["calls"]
+        res.notes["all_pairs_sweep"] = tot
+        res.notes["exhaustive"] = tot["pairs"] == 1151 * 1151
     return res.finish()
 
 
